@@ -47,16 +47,42 @@ def variants_case(cid, msa, refid, annob, suffix, meta, start=-1, end=-1, aggreg
     return {"id": cid, "go": go, "coq": coq, "meta": meta, "sample": s, "info": info or {}}
 
 
-def random_setup(rng, allow_unnamed=False, codon_starts=False, mod3_segments=False, nq=None, insertions=True):
+def random_setup(rng, allow_unnamed=False, codon_starts=False, mod3_segments=False, nq=None, insertions=True, rotate=0.0):
     """genome + features + msa rows."""
     n = rng.choice([30, 45, 60, 90])
     genome = gen.rand_seq(rng, n)
     feats = anno.random_features(rng, n, max_feats=3, allow_unnamed=allow_unnamed, codon_starts=codon_starts,
-                                 mod3_segments=mod3_segments, rotate=0.15)
+                                 mod3_segments=mod3_segments, rotate=rotate)
     genome, feats = anno.patch_stops(rng, genome, feats)
     nq = nq or rng.randint(1, 4)
     ref_row, rows = anno.make_msa(rng, genome, nq, with_insertions=insertions)
     return genome, feats, ref_row, rows
+
+
+def wobble_codons(rng, genome, feats, ref_row, rows):
+    """Rewrite one or two codons of a feature in some rows so that the query codon holds an IUPAC code and still translates
+    unambiguously: a four-fold degenerate family with N (or another code) in the third position, a two-fold family with R/Y,
+    MGR / YTR; the first two bases chosen so that the residue differs from the reference's."""
+    col = [i for i, c in enumerate(ref_row) if c != "-"]
+    rows = [list(r) for r in rows]
+    fam = [p + x for p in ("AC", "CC", "CG", "CT", "GC", "GG", "GT", "TC") for x in "NNBDHVRY"] + \
+          ["AAR", "AAY", "GAR", "GAY", "CAR", "CAY", "TTR", "TTY", "AGR", "AGY", "MGR", "YTR", "ATH", "TAR"]
+    for row in rows:
+        if rng.random() < 0.3:
+            continue
+        for _ in range(rng.randint(1, 2)):
+            f = rng.choice(feats)
+            ps = f.positions()
+            if len(ps) < 6:
+                continue
+            ci = rng.randrange(len(ps) // 3 - 1)           # not the stop codon
+            trip = ps[3 * ci:3 * ci + 3]
+            cod = rng.choice(fam)
+            if f.strand == "-":
+                cod = "".join(anno.COMP.get(c, c) for c in cod)
+            for p, ch in zip(trip, cod):
+                row[col[p - 1]] = ch
+    return ["".join(r) for r in rows]
 
 
 def build_msa(rng, ref_row, rows, refpos="first", refname="REF", style=None):
@@ -207,9 +233,41 @@ def cigar_of(ref, que):
     return ops
 
 
+def split_records(rng, name, ref, que):
+    """The pairwise relation as 2-3 SAM records (primary + supplementary) that tile it: cut between two columns that both
+    hold a reference base and a query base, the other part hard-clipped; sometimes a soft clip in front of the first."""
+    cols = [(r, q) for r, q in zip(ref, que) if not (r == "-" and q == "-")]
+    ok = [i for i in range(1, len(cols)) if all(a != "-" and b != "-" for a, b in (cols[i - 1], cols[i]))]
+    if not ok:
+        return None
+    cuts = sorted(rng.sample(ok, min(len(ok), rng.choice([1, 1, 2]))))
+    parts, prev = [], 0
+    for c in cuts + [len(cols)]:
+        parts.append(cols[prev:c])
+        prev = c
+    nq = [sum(1 for r, q in p if q != "-") for p in parts]
+    recs, refpos = [], 0
+    for k, p in enumerate(parts):
+        cig = cigar_of("".join(r for r, _ in p), "".join(q for _, q in p))
+        seq = "".join(q for _, q in p if q != "-").upper()
+        before, after = sum(nq[:k]), sum(nq[k + 1:])
+        if before:
+            cig = [("H", before)] + cig
+        if after:
+            cig = cig + [("H", after)]
+        if k == 0 and rng.random() < 0.35:
+            clip = rng.randint(1, 3)
+            cig = [("S", clip)] + cig
+            seq = "".join(rng.choice("ACGT") for _ in range(clip)) + seq
+        recs.append({"name": name, "flag": 0 if k == 0 else 2048, "pos": refpos, "cigar": cig, "seq": seq})
+        refpos += sum(1 for r, _ in p if r != "-")
+    return recs
+
+
 def sam_form_stage(ctx, cm, gen, samgen, anno, cases, obs, bad, get_pairs):
-    """Every case's pairwise relations written as one SAM record per query and given to `sam variants` (one worker): its rows
-    must equal the rows `variants` printed for the FASTA-MSA form.  Returns the number of runs."""
+    """Every case's pairwise relations written as one SAM record per query, and as 2-3 tiling records per query (sometimes
+    behind a soft clip), and given to `sam variants` (one worker): its rows must equal the rows `variants` printed for the
+    FASTA-MSA form.  Returns the number of runs."""
     stage, plan = [], []
     for c in cases:
         pairs = get_pairs(c)
@@ -219,13 +277,19 @@ def sam_form_stage(ctx, cm, gen, samgen, anno, cases, obs, bad, get_pairs):
         recs = [{"name": nm, "flag": 0, "pos": 0, "cigar": cigar_of(ref, que), "seq": que.replace("-", "").upper()} for nm, ref, que in pairs]
         if any(not r["seq"] or not r["cigar"] for r in recs):
             continue
-        samb = samgen.render_sam("REF", len(genome), recs)
+        # the same relations again with every query split into primary + supplementary records that tile it
+        split = []
+        for nm, ref, que in pairs:
+            sr = split_records(ctx.rng, nm, ref, que)
+            split += sr if sr else [r for r in recs if r["name"] == nm]
         refb = gen.layout(ctx.rng, [("REF", genome)], "plain")
         g = c["go"]
-        stage.append({"id": len(stage), "op": "samvariants", "sam": cm.b64(samb), "ref": cm.b64(refb), "anno": cm.b64(c["info"]["annob"]),
-                      "suffix": c["info"]["suffix"], "ref_from_file": True, "start": g.get("start", -1), "end": g.get("end", -1),
-                      "append_snps": g.get("append_snps", False), "aggregate": False, "threads": 1})
-        plan.append((c, samb))
+        for rs in (recs, split):
+            samb = samgen.render_sam("REF", len(genome), rs)
+            stage.append({"id": len(stage), "op": "samvariants", "sam": cm.b64(samb), "ref": cm.b64(refb), "anno": cm.b64(c["info"]["annob"]),
+                          "suffix": c["info"]["suffix"], "ref_from_file": True, "start": g.get("start", -1), "end": g.get("end", -1),
+                          "append_snps": g.get("append_snps", False), "aggregate": False, "threads": 1})
+            plan.append((c, samb))
     if not stage:
         return 0
     res = cm.go_run(stage, ctx.log)
